@@ -40,6 +40,25 @@ def litPowerAdd : Int := 63
 /-- `compute_error_scaled`: `… - hilz - lz - 62` -/
 def litErrorBias : Int := 62
 
+/-- the integer literals of `compute_float` in source order, assembled from the named literals above (plain
+numerals: shift amounts `63`, `64`, the `0`/`1`/`2` of `fp_zero`, `& 1`, `>> 1`, `1 << MANTISSA_SIZE`, …).
+`extractors/literals.py` extracts the same list from the source text (`Gen.Literals.parse_float_lemire_compute_float`):
+equating the two ties every literal of the model to /repo. -/
+def computeFloatLiterals : List Nat :=
+  [0, 0, 0, 0, litPrecisionExtra, litAllOnes, (-litSafeLo).toNat, litSafeHi.toNat, 63, 64, litPrecisionExtra, 0, 1,
+   litSubnormalLimit.toNat, 1, 1, 1, 1, litTieLo, litTieMask, litTieVal, 64, litPrecisionExtra, 1, 1, 1, 2, 1, 1, 1]
+/-- `compute_product_approx` -/
+def computeProductApproxLiterals : List Nat := [64, 64, litAllOnes, litAllOnes, 1]
+/-- `power` -/
+def powerLiterals : List Nat := [litPowerMulA.toNat, litPowerMulB.toNat, litPowerShift, litPowerAdd.toNat]
+/-- `compute_error_scaled` -/
+def computeErrorScaledLiterals : List Nat := [63, 1, litErrorBias.toNat]
+
+example : computeFloatLiterals =
+    [0, 0, 0, 0, 3, 18446744073709551615, 27, 55, 63, 64, 3, 0, 1, 64, 1, 1, 1, 1, 1, 3, 1, 64, 3, 1, 1, 1, 2, 1, 1, 1] ∧
+    computeProductApproxLiterals = [64, 64, 18446744073709551615, 18446744073709551615, 1] ∧
+    powerLiterals = [152170, 65536, 16, 63] ∧ computeErrorScaledLiterals = [63, 1, 62] := by decide
+
 /-! ## functions -/
 
 /-- `power(q: i32) -> i32` -/
